@@ -35,9 +35,11 @@ pub struct OCell {
     pub val: OVal,
     pub formula: Option<String>,
     pub covered: bool,
+    /// a cell comment (office:annotation with its own paragraphs) before the cell's text: not part of the value
+    pub annotation: bool,
 }
 impl OCell {
-    pub fn new(val: OVal) -> OCell { OCell { val, formula: None, covered: false } }
+    pub fn new(val: OVal) -> OCell { OCell { val, formula: None, covered: false, annotation: false } }
     pub fn empty() -> OCell { OCell::new(OVal::Empty) }
 }
 
@@ -65,6 +67,10 @@ pub struct OBook {
     /// manifest entries carrying encryption-data: indices into the file-entry list (for C20)
     pub encrypted_entries: Vec<usize>,
     pub extra_manifest_entries: usize,
+    /// write table:name as the last attribute of named ranges / expressions instead of the first
+    pub named_name_last: bool,
+    /// OpenPGP style encryption (ODF 1.3): a manifest:keyinfo element with nested elements precedes the file entries
+    pub manifest_keyinfo: bool,
 }
 
 fn spaces_xml(n: usize, mode: SpaceMode, at_start: bool) -> String {
@@ -136,11 +142,12 @@ fn cell_xml(c: &OCell, rep: u32) -> String {
             body = format!("<text:p>{t}</text:p>");
         }
     }
+    if c.annotation { body = format!("<office:annotation office:display=\"false\"><dc:date>2021-03-04T05:06:07</dc:date><text:p>note &amp; <text:span>B2</text:span><text:s text:c=\"2\"/>x</text:p><text:p>second</text:p></office:annotation>{body}"); }
     if body.is_empty() { format!("<{tag}{a}/>") } else { format!("<{tag}{a}>{body}</{tag}>") }
 }
 
 pub fn content_xml(b: &OBook) -> String {
-    let mut o = String::from("<?xml version=\"1.0\" encoding=\"UTF-8\"?>\n<office:document-content xmlns:office=\"urn:oasis:names:tc:opendocument:xmlns:office:1.0\" xmlns:style=\"urn:oasis:names:tc:opendocument:xmlns:style:1.0\" xmlns:text=\"urn:oasis:names:tc:opendocument:xmlns:text:1.0\" xmlns:table=\"urn:oasis:names:tc:opendocument:xmlns:table:1.0\" xmlns:of=\"urn:oasis:names:tc:opendocument:xmlns:of:1.2\" office:version=\"1.2\">");
+    let mut o = String::from("<?xml version=\"1.0\" encoding=\"UTF-8\"?>\n<office:document-content xmlns:office=\"urn:oasis:names:tc:opendocument:xmlns:office:1.0\" xmlns:style=\"urn:oasis:names:tc:opendocument:xmlns:style:1.0\" xmlns:text=\"urn:oasis:names:tc:opendocument:xmlns:text:1.0\" xmlns:table=\"urn:oasis:names:tc:opendocument:xmlns:table:1.0\" xmlns:of=\"urn:oasis:names:tc:opendocument:xmlns:of:1.2\" xmlns:dc=\"http://purl.org/dc/elements/1.1/\" office:version=\"1.2\">");
     o.push_str("<office:automatic-styles>");
     o.push_str("<style:style style:name=\"ta1\" style:family=\"table\"><style:table-properties table:display=\"true\"/></style:style>");
     o.push_str("<style:style style:name=\"ta2\" style:family=\"table\"><style:table-properties table:display=\"false\"/></style:style>");
@@ -160,8 +167,10 @@ pub fn content_xml(b: &OBook) -> String {
         o.push_str("<table:named-expressions>");
         for (n, range, expr) in &b.named {
             if let Some(r) = range {
+                if b.named_name_last { o.push_str(&format!("<table:named-range table:base-cell-address=\"$Sheet1.$A$1\" table:cell-range-address=\"{}\" table:name=\"{}\"/>", esc(r), esc(n))); continue; }
                 o.push_str(&format!("<table:named-range table:name=\"{}\" table:base-cell-address=\"$Sheet1.$A$1\" table:cell-range-address=\"{}\"/>", esc(n), esc(r)));
             } else if let Some(e) = expr {
+                if b.named_name_last { o.push_str(&format!("<table:named-expression table:base-cell-address=\"$Sheet1.$A$1\" table:expression=\"{}\" table:name=\"{}\"/>", esc(e), esc(n))); continue; }
                 o.push_str(&format!("<table:named-expression table:name=\"{}\" table:base-cell-address=\"$Sheet1.$A$1\" table:expression=\"{}\"/>", esc(n), esc(e)));
             }
         }
@@ -175,6 +184,9 @@ pub fn manifest_xml(b: &OBook) -> String {
     let mut o = String::from("<?xml version=\"1.0\" encoding=\"UTF-8\"?>\n<manifest:manifest xmlns:manifest=\"urn:oasis:names:tc:opendocument:xmlns:manifest:1.0\" manifest:version=\"1.2\">");
     let mut entries: Vec<(String, String)> = vec![("/".into(), MIMETYPE.into()), ("content.xml".into(), "text/xml".into()), ("styles.xml".into(), "text/xml".into())];
     for i in 0..b.extra_manifest_entries { entries.push((format!("Pictures/p{i}.png"), "image/png".into())); }
+    if b.manifest_keyinfo {
+        o.push_str("<manifest:keyinfo><manifest:encrypted-key><manifest:encryption-method manifest:PGPAlgorithm=\"http://www.gnu.org/prep/standards/pgp\"/><manifest:keyinfo-data><manifest:PGPData><manifest:PGPKeyID>AAAA</manifest:PGPKeyID><manifest:PGPKeyPacket>AAAA</manifest:PGPKeyPacket></manifest:PGPData></manifest:keyinfo-data><manifest:CipherData><manifest:CipherValue>AAAA</manifest:CipherValue></manifest:CipherData></manifest:encrypted-key></manifest:keyinfo>");
+    }
     for (i, (p, m)) in entries.iter().enumerate() {
         if b.encrypted_entries.contains(&i) {
             o.push_str(&format!("<manifest:file-entry manifest:full-path=\"{p}\" manifest:media-type=\"{m}\" manifest:size=\"100\"><manifest:encryption-data manifest:checksum-type=\"urn:oasis:names:tc:opendocument:xmlns:manifest:1.0#sha256-1k\" manifest:checksum=\"AAAA\"><manifest:algorithm manifest:algorithm-name=\"http://www.w3.org/2001/04/xmlenc#aes256-cbc\" manifest:initialisation-vector=\"AAAA\"/><manifest:key-derivation manifest:key-derivation-name=\"PBKDF2\" manifest:key-size=\"32\" manifest:iteration-count=\"100000\" manifest:salt=\"AAAA\"/><manifest:start-key-generation manifest:start-key-generation-name=\"http://www.w3.org/2000/09/xmldsig#sha256\" manifest:key-size=\"32\"/></manifest:encryption-data></manifest:file-entry>"));
